@@ -459,6 +459,23 @@ func FindRangeOver(f *ssa.Function, x ssa.Value) []RangeElem {
 	return out
 }
 
+// SameColl: a and b denote the same collection: the same SSA value, or two
+// loads of the same field of the same base object (a field re-read in every
+// iteration of an index loop).
+func SameColl(a, b ssa.Value) bool {
+	if a == b {
+		return true
+	}
+	ua, ok1 := a.(*ssa.UnOp)
+	ub, ok2 := b.(*ssa.UnOp)
+	if !ok1 || !ok2 || ua.Op != token.MUL || ub.Op != token.MUL {
+		return false
+	}
+	fa, ok1 := ua.X.(*ssa.FieldAddr)
+	fb, ok2 := ub.X.(*ssa.FieldAddr)
+	return ok1 && ok2 && fa.X == fb.X && fa.Field == fb.Field
+}
+
 // FindRangeOver2 also returns loops that only take the element's address.
 func FindRangeOver2(f *ssa.Function, x ssa.Value) []RangeElem {
 	var out []RangeElem
@@ -466,7 +483,7 @@ func FindRangeOver2(f *ssa.Function, x ssa.Value) []RangeElem {
 	for _, b := range f.Blocks {
 		for _, in := range b.Instrs {
 			ia, ok := in.(*ssa.IndexAddr)
-			if !ok || ia.X != x {
+			if !ok || !SameColl(ia.X, x) {
 				continue
 			}
 			var ph *ssa.Phi
@@ -518,7 +535,7 @@ func FindRangeOver2(f *ssa.Function, x ssa.Value) []RangeElem {
 				continue
 			}
 			ln, ok := cmp.Y.(*ssa.Call)
-			if !ok || !core.IsBuiltin(&ln.Call, "len") || ln.Call.Args[0] != x {
+			if !ok || !core.IsBuiltin(&ln.Call, "len") || !SameColl(ln.Call.Args[0], x) {
 				continue
 			}
 			okInit, nInit := true, 0
